@@ -365,7 +365,7 @@ pub fn run(tier: &str) -> i32 {
     st.sample(json!({"family": "G33", "a_mask": 495, "b_mask": 16, "A": hex(&f.m[495]), "B": hex(&f.m[16]), "note": "ring with hole vs the centre square: every edge of B coincides with an edge of A", "ops": "all four"}));
     finish(
         &st,
-        "state = ordered operand pair; transition = fill_queue + subdivide of the real implementation for one operation; for every processed sub-segment two side points (midpoint +- 0.01 along the upward normal; for a vertical sub-segment 'above' is the left side) give own/other membership below and above (face bitmask on complexes, exact even-odd on the table); in_out, other_in_out, edge type, in_result and the result transition (for coincident twins: exactly one carries the boundary, with the combined direction) and prev_in_result are compared with what these memberships imply; non-trivial = operands share a boundary point",
+        "state = ordered operand pair; transition = fill_queue + subdivide of the real implementation for one operation; for every processed sub-segment two side points (midpoint +- 0.01 along the upward normal; for a vertical sub-segment 'above' is the left side) give own/other membership below and above (face bitmask on complexes, exact even-odd on the table); in_out, other_in_out, edge type, in_result and the result transition (for coincident twins: exactly one carries the boundary, with the combined direction) and prev_in_result are compared with what these memberships imply; where the nearest non-vertical sub-segment below the left end is unique and is a result boundary (or its coincident twin is), the recorded prev_in_result must be that edge or the first part of the same edge ending at this point; non-trivial = operands share a boundary point",
         &["on the float table a sub-segment whose side points are not clear of every other edge is skipped and counted"],
         true,
         Some(&|c| replay(c, false)),
